@@ -15,10 +15,11 @@ PROPS = {
         assumptions=["fixed-size variables in the placement tie (record variables are covered by the implementation oracle only)"],
     ),
     "C04": dict(
-        lean_props=["H4.Props.C04Chunk"],
+        lean_props=["H4.Props.C04Chunk", "H4.Props.C04MCache"],
         engines=[
             E("chunk", "e_chunk.c", model="chunk", quick=dict(cases=400), thorough=dict(cases=15000, seeds=4, chunk=100)),
             # exhaustive: every chunk shape of every extent <= 4, <= 4x4, <= 3x3x2 (615 geometries) x nt 1,2,4; every aligned (pos,len) walk
+            E("mcache", "e_mcache.c", model="mcache", quick=dict(cases=1500), thorough=dict(cases=20000, seeds=8, chunk=500)),
             E("chunk_exh", "e_chunk.c", model="chunk", quick=dict(cases=615, args=["exh"]), thorough=dict(cases=1845, seeds=1, args=["exh"], chunk=50)),
         ],
         trusted_base=["mcache.c page cache and the chunk table Vdata/TBBT: not modelled here (chunk store = map chunk number -> buffer); "
